@@ -20,10 +20,10 @@ namespace {
 struct OptDef { const char* canon; char type; std::vector<const char*> syn; };   // type: I int, D double, S string, F flag, L list, W wildcard, B 0/1
 const std::vector<OptDef>& defs() {
   static const std::vector<OptDef> d = {
-    {"tech:intopt", 'I', {"intopt", "int_opt", "ool_intopt"}},
-    {"tech:dblopt", 'D', {"dblopt", "dbl_opt"}},
-    {"tech:stropt", 'S', {"stropt", "str_opt", "ool_stropt"}},
-    {"tech:flagopt", 'F', {"flagopt"}},
+    {"tech:intopt", 'I', {"intopt", "int_opt", "ool_intopt", "IntOptCamel"}},
+    {"tech:dblopt", 'D', {"dblopt", "dbl_opt", "DBLOPT_up"}},
+    {"tech:stropt", 'S', {"stropt", "str_opt", "ool_stropt", "StrOptCamel"}},
+    {"tech:flagopt", 'F', {"flagopt", "OOL_FlagOpt"}},
     {"tech:listopt", 'L', {"listopt"}},
     {"wc:*:val", 'W', {"wc_*_val"}},
     {"mip:round", 'I', {"round"}},
